@@ -174,3 +174,64 @@ Proof.
   - apply update_xm_some; assumption.
   - apply update_it_some; assumption.
 Qed.
+
+(* ---------- the value get_envelope returns ---------- *)
+
+(* C's truncating interpolation stays between the two node values *)
+Lemma interp_range lo hi y1 y2 t d : 0 <= t <= d -> 0 < d -> lo <= y1 <= hi -> lo <= y2 <= hi ->
+  lo <= cdiv ((y2 - y1) * t) d + y1 <= hi.
+Proof.
+  intros Ht Hd H1 H2. unfold cdiv. destruct (Z_le_gt_dec y1 y2) as [Hle|Hgt].
+  - assert (Ha : 0 <= (y2 - y1) * t) by (apply Z.mul_nonneg_nonneg; lia).
+    assert (Hb : (y2 - y1) * t <= d * (y2 - y1)) by (rewrite (Z.mul_comm d); apply Z.mul_le_mono_nonneg_l; lia).
+    rewrite Z.quot_div_nonneg by lia.
+    pose proof (Z.div_pos _ _ Ha Hd) as Hq0.
+    pose proof (Z.div_le_upper_bound _ _ _ Hd Hb) as Hq1. lia.
+  - assert (Ha : 0 <= (y1 - y2) * t) by (apply Z.mul_nonneg_nonneg; lia).
+    assert (Hb : (y1 - y2) * t <= d * (y1 - y2)) by (rewrite (Z.mul_comm d); apply Z.mul_le_mono_nonneg_l; lia).
+    replace ((y2 - y1) * t) with (- ((y1 - y2) * t)) by ring.
+    rewrite Z.quot_opp_l by lia. rewrite Z.quot_div_nonneg by lia.
+    pose proof (Z.div_pos _ _ Ha Hd) as Hq0.
+    pose proof (Z.div_le_upper_bound _ _ _ Hd Hb) as Hq1. lia.
+Qed.
+
+Theorem get_envelope_value_range : forall e data x def lo hi, env_okb e = true -> length data = 64%nat ->
+  has (e_flg e) C_XMP_ENVELOPE_ON = true -> 0 <= x ->
+  (forall k, 0 <= k < e_npt e -> lo <= nth (Z.to_nat (2 * k + 1)) data 0 <= hi) ->
+  forall v, get_envelope e data x def = Some v -> lo <= v <= hi.
+Proof.
+  intros e data x def lo hi Hok Hl Hon Hx Hy v Hg.
+  pose proof (env_ok_on e Hok Hon) as Hn.
+  assert (Hy' : forall i j w, i = 2 * j + 1 -> 0 <= j < e_npt e -> dat data i = Some w -> lo <= w <= hi).
+  { intros i j w Hi Hj Hd. apply dat_nth in Hd. destruct Hd as [_ Hd]. subst w i. apply Hy. assumption. }
+  unfold get_envelope in Hg. rewrite Hon in Hg.
+  destruct (Z.ltb_spec x 0) as [Hlt|_]; [lia|].
+  destruct (Z.leb_spec (e_npt e) 0) as [Hle|_]; [lia|].
+  cbn [orb negb] in Hg. cbv zeta in Hg.
+  destruct (dat data ((e_npt e - 1) * 2)) as [xl|] eqn:Hxl; [|discriminate].
+  destruct (dat data ((e_npt e - 1) * 2 + 1)) as [yl|] eqn:Hyl; [|discriminate].
+  destruct (Z.leb_spec xl x) as [Hxle|Hxgt]; cbn [orb] in Hg.
+  { injection Hg as Hg. subst v. apply (Hy' ((e_npt e - 1) * 2 + 1) (e_npt e - 1) yl); [lia|lia|exact Hyl]. }
+  destruct (Z.eqb_spec ((e_npt e - 1) * 2) 0) as [Hz|Hnz].
+  { injection Hg as Hg. subst v. apply (Hy' ((e_npt e - 1) * 2 + 1) (e_npt e - 1) yl); [lia|lia|exact Hyl]. }
+  destruct (walk_back_some data x Hl 40 ((e_npt e - 1) * 2) (e_npt e - 1)) as [i [Hw [Hb [j Hj]]]]; [lia|lia|cbn; lia|].
+  rewrite Hw in Hg.
+  destruct (walk_back_next data x _ _ _ _ Hw Hxl Hxgt) as [x2' [Hx2' Hxx2]].
+  destruct (dat data i) as [x1|] eqn:Hx1; [|discriminate].
+  destruct (dat data (i + 1)) as [y1|] eqn:Hy1; [|discriminate].
+  rewrite Hx2' in Hg.
+  destruct (dat data (i + 3)) as [y2|] eqn:Hy2; [|discriminate].
+  assert (Ry1 : lo <= y1 <= hi) by (apply (Hy' (i + 1) j y1); [lia|lia|exact Hy1]).
+  assert (Ry2 : lo <= y2 <= hi) by (apply (Hy' (i + 3) (j + 1) y2); [lia|lia|exact Hy2]).
+  destruct (Z.ltb_spec x x1) as [Hxx1|Hxx1]; cbn [orb] in Hg.
+  { injection Hg as Hg. subst v. assumption. }
+  destruct (Z.ltb_spec x2' x1) as [Hx21|Hx21].
+  { injection Hg as Hg. subst v. assumption. }
+  injection Hg as Hg. subst v.
+  destruct (Z.eqb_spec x2' x1) as [Heq|Hne]; [assumption|].
+  apply interp_range; lia.
+Qed.
+
+Print Assumptions get_envelope_in_bounds.
+Print Assumptions update_envelope_in_bounds.
+Print Assumptions get_envelope_value_range.
